@@ -209,7 +209,7 @@ def run_scenario(sc, chooser=None, seed=0, max_steps=20000):
     for vt in sched.vts:
         if vt.exc is not None:
             viol.append("unexpected exception in %s: %r" % (vt.name, vt.exc))
-    return {"lines": lines, "outcome": outcome, "monitor": sorted(set(viol)), "choices": list(sched.choices), "steps": sched.steps,
+    return {"lines": lines, "outcome": outcome, "monitor": sorted(set(viol)), "choices": list(sched.choices), "cand_counts": list(sched.cand_counts), "steps": sched.steps,
             "switches": sched.context_switches, "stuck": stuck}
 
 
@@ -364,7 +364,7 @@ def run_worker_scenario(sc, chooser=None, seed=0, max_steps=20000):
     for vt in sched.vts:
         if vt.exc is not None:
             viol.append("unexpected exception in %s: %r" % (vt.name, vt.exc))
-    return {"lines": [], "outcome": outcome, "monitor": sorted(set(viol)), "choices": list(sched.choices), "steps": sched.steps,
+    return {"lines": [], "outcome": outcome, "monitor": sorted(set(viol)), "choices": list(sched.choices), "cand_counts": list(sched.cand_counts), "steps": sched.steps,
             "switches": sched.context_switches, "stuck": []}
 
 
